@@ -581,6 +581,7 @@ def run(chk):
            'denotes - a lookup between two unifications would change the '
            'result' % q, fi=m.funcs[q], node=x)
   end_of_chain(chk, 'C16-R3')
+  copies_are_fresh(chk, 'C16-R3')
   tg = repo.func('reference_algebra.TypeReference.Target')
   ci_ = m.cls('TypeReference')
   ok = any(isinstance(x, ast.While) and 'WeMustGoDeeper' in norm(x.test)
@@ -589,3 +590,75 @@ def run(chk):
       c.func.attr in returns_end_of_chain(ci_) for c in walk_local(tg.node))
   chk.ob('C16-R3', ok, None, 'Target() follows the chain to its end',
          'Target returns an intermediate reference', fi=tg)
+
+
+IMMUTABLE_TYPES = {'str', 'int', 'float', 'bool', 'bytes', 'tuple', 'frozenset', 'NoneType'}
+
+
+def copies_are_fresh(chk, rid):
+  """Unify mutates references in place; the outcome for one call site is a
+  function of its own constraints only if each use of a predicate signature
+  works on a fresh instance.  TypeStructureCopier provides the instances: a
+  value it hands out (returns, memoises) is never the very object it was
+  given, except for immutable values."""
+  repo = chk.repo
+  m = repo.by_name('reference_algebra')
+  ci = m.cls('TypeStructureCopier')
+  count = 0
+  for q, fi in sorted(m.funcs.items()):
+    if not q.startswith('TypeStructureCopier.') or len(fi.params) < 2 or fi.name.startswith('__'):
+      continue
+    if not fi.name.startswith('Copy'):
+      continue
+    v = FnView.of(repo, fi)
+    t = fi.params[1]
+    escaping = []                        # (cfg node, expr)
+    for n in v.cfg.stmt_nodes():
+      st = v.cfg.stmt[n]
+      if isinstance(st, ast.Return) and st.value is not None:
+        escaping.append((n, st.value))
+      elif isinstance(st, ast.Assign) and any(isinstance(tg, ast.Subscript) and
+                                             (dotted(tg.value) or '').startswith('self.')
+                                             for tg in st.targets):
+        escaping.append((n, st.value))
+    assigns = {}
+    for n in v.cfg.stmt_nodes():
+      st = v.cfg.stmt[n]
+      if isinstance(st, ast.Assign):
+        for tg in st.targets:
+          if isinstance(tg, ast.Name):
+            assigns.setdefault(tg.id, []).append((n, st.value))
+    def immutable_here(n):
+      for e, val in v.guards(n):
+        if val and isinstance(e, ast.Call) and call_tail(e) == 'isinstance' and \
+            len(e.args) == 2 and dotted(e.args[0]) == t:
+          kinds = e.args[1].elts if isinstance(e.args[1], ast.Tuple) else [e.args[1]]
+          if all((dotted(k) or '') in IMMUTABLE_TYPES for k in kinds):
+            return True
+      return False
+    bad = None
+    seen = set()
+    todo = list(escaping)
+    while todo:
+      n, e = todo.pop()
+      if isinstance(e, ast.IfExp):
+        todo += [(n, e.body), (n, e.orelse)]
+        continue
+      if isinstance(e, ast.Name):
+        if e.id == t:
+          if not immutable_here(n):
+            bad = (n, e)
+          continue
+        if e.id in assigns and e.id not in seen:
+          seen.add(e.id)
+          todo += assigns[e.id]
+    count += 1
+    chk.ob(rid, bad is None, None,
+           '%s hands out a new object (its argument only when that is immutable)' % q,
+           '`%s` itself is returned / memoised: the "copy" of a signature shares this '
+           'reference with the original, so unifications at one call site (closing a '
+           'record, narrowing Any, a clash) show up at every other use of the '
+           'signature and the result depends on the order of the call sites' % t,
+           fi=fi, node=v.cfg.stmt[bad[0]] if bad else None)
+  if count < 3:
+    raise AnalysisError('TypeStructureCopier: %d Copy* methods recognised' % count)
